@@ -25,12 +25,14 @@
  *   P <blob> <stripped> <text> <sleeps> <flagstrip> <stored>      stripped = stripvdomprepend(stored)
  *   I <id> <blob> <bouncefile> <ret> <q> <F> <T> <body> <left> <log> <ret2> <q2> <F2> <T2> <body2|=> <left2> <log2> <sizes> <routes>
  *      routes = per failure "<flagstrip>:<stored hex>", comma separated ("-" if none)
- *   Q <blob> <bouncefile> <ret> <left> <rec> <msg> <env> <ret2> <left2> <rec2> <msg2> <env2> <routes>     rec = the stand-in ran and recorded
+ *   Q <blob> <bouncefile> <ret> <left> <rec> <msg> <env> <ret2> <left2> <rec2> <msg2> <env2> <routes> <fault> <log> <log2>     rec = the stand-in ran and recorded;
+ *      fault = "-" or "<o|r>:<k>:<fired>:<file b|m|i>:<bytes of the file read before>" (Q fault field "<exit>,<signal>,<o|r><k>": the k-th open_read()/read()
+ *      of a queue file inside the first injectbounce() fails)
  *      sizes = size of bounce/<id> after each addbounce() call, comma separated ("-" if none): the driver cuts the file
  *      into the texts the real addbounce() calls appended and replays the whole life of the message (arrival, D reports,
  *      appendBounce with these texts, the injection(s) with the real envelope/body, unlink) through the daemon monitor
  *   C <blob> <n> <sender0> {<F> <T>}*n
- *   D <blob> <appended>
+ *   D <blob> <appended> <order> <markbyte>     order = sequence of writes: 'a' to bounce/<id>, 'M' to the channel file ("-" = none); markbyte = first byte of the channel record afterwards
  *   X <kind> <blob>         the implementation crashed / a sanitizer fired while running this case */
 #include "hcommon.h"
 #include <sys/stat.h>
@@ -98,8 +100,15 @@ static void faults_clear(void) {
   flt_unlink_fail = flt_qq_open_fail = flt_qq_close_fail = 0; wmode = 0; wmode_fired = 0;
 }
 
+/* Q leg (session 4): fail the k-th open_read() / the k-th read() on a queue file, counted from the start of injectbounce() */
+static int qf_kind, qf_idx, qf_cnt_o, qf_cnt_r, qf_fired; static char qf_target; static size_t qf_pos;
+static void qf_hit(const char *name, size_t pos) {
+  qf_fired = 1; qf_pos = pos;
+  qf_target = strstr(name, "bounce/") ? 'b' : strstr(name, "mess/") ? 'm' : strstr(name, "info/") ? 'i' : 'x';
+}
 int open_read(const char *fn) {
   vfile *f;
+  if (qf_kind) { int k = qf_cnt_o++; if (qf_kind == 'o' && k == qf_idx) { qf_hit(fn, 0); errno = ENFILE; return -1; } }
   if (flt_open_fail && strstr(fn, flt_open_fail)) { errno = EACCES; return -1; }
   f = vf_get(fn, 0);
   if (!f || !f->exists) { errno = ENOENT; return -1; }
@@ -128,6 +137,7 @@ ssize_t read(int fd, void *buf, size_t n) {
     }
     return syscall(SYS_read, fd, buf, n);
   }
+  if (qf_kind) { int k = qf_cnt_r++; if (qf_kind == 'r' && k == qf_idx) { qf_hit(v->f->name, v->pos); errno = EIO; return -1; } }
   if (flt_read_fail && strstr(v->f->name, flt_read_fail)) {
     if ((long)v->pos >= flt_read_after) { errno = EIO; return -1; }
     if ((long)(v->pos + n) > flt_read_after) n = flt_read_after - v->pos;
@@ -136,9 +146,15 @@ ssize_t read(int fd, void *buf, size_t n) {
   if (k) memcpy(buf, v->f->d.p + v->pos, k); v->pos += k;
   return k;
 }
+/* D leg (session 4): the order in which del_dochan() writes the failure record ('a' = a write() to bounce/<id>) and the done-mark
+   ('M' = a write() to the channel file local|remote/<split>/<id>); consecutive repeats are written once */
+static char ord[16]; static int ordn;
+static void ord_add(char c) { if ((ordn == 0 || ord[ordn - 1] != c) && ordn < (int)sizeof ord - 1) ord[ordn++] = c; ord[ordn] = 0; }
 ssize_t write(int fd, const void *buf, size_t n) {
   vfd *v = vfd_of(fd);
   if (!v) return syscall(SYS_write, fd, buf, n);
+  if (strstr(v->f->name, "bounce/")) ord_add('a');
+  else if (strstr(v->f->name, "local/") || strstr(v->f->name, "remote/")) ord_add('M');
   if (wmode == 2 && !wmode_fired) { wmode_fired = 1; errno = ENOSPC; return -1; }
   if (wmode == 3 && !wmode_fired) { wmode_fired = 1; return 0; }
   if (wmode == 1 && n > 1) n = 1;
@@ -468,6 +484,7 @@ static void rec_out(void) {
   fputs(" 1", h_out); hexf(m, a); hexf(e, bb);
   free(m); free(e);
 }
+static int q_last_fired;
 static void case_Q(const unsigned char *b, size_t n) {
   int i, r; vfile *f; char script[64];
   cur_set('Q', b, n);
@@ -491,18 +508,31 @@ static void case_Q(const unsigned char *b, size_t n) {
   fputs("Q", h_out); hexf(b, n);
   f = vf_get(fn_bounce, 0);
   if (f && f->exists) hexf(f->d.p, f->d.n); else fputs(" -", h_out);
-  snprintf(script, sizeof script, "%.40s,-", fln[8] ? fstr[8] : "0,0");
-  setenv("C07_QQ", script, 1);
-  rec_reset(); hbuf_reset(&logb);
-  r = injectbounce(ID0);
-  fprintf(h_out, " %d %d", r, vf_exists(fn_bounce)); rec_out();
-  setenv("C07_QQ", "0,0,-", 1);
-  rec_reset();
-  r = injectbounce(ID0);
-  fprintf(h_out, " %d %d", r, vf_exists(fn_bounce)); rec_out();
-  fputc(' ', h_out);
-  if (routes.n) fwrite(routes.p, 1, routes.n, h_out); else fputc('-', h_out);
-  fputc('\n', h_out);
+  /* fault field: "<exit>,<signal>[,<o|r><k>]": the third part fails the k-th open_read() / read() of a queue file inside the
+     first injectbounce() call (k = 0: the first call; info/<id>, bounce/<id>, mess/<id> are opened in this order) */
+  { int code = 0, sg = 0; char fk = 0; int fi = 0; const char *c1, *c2;
+    static hbuf log1;
+    if (fln[8]) { code = atoi(fstr[8]); c1 = strchr(fstr[8], ','); if (c1) { sg = atoi(c1 + 1); c2 = strchr(c1 + 1, ','); if (c2 && (c2[1] == 'o' || c2[1] == 'r')) { fk = c2[1]; fi = atoi(c2 + 2); } } }
+    snprintf(script, sizeof script, "%d,%d,-", code, sg);
+    setenv("C07_QQ", script, 1);
+    rec_reset(); hbuf_reset(&logb);
+    qf_kind = fk; qf_idx = fi; qf_cnt_o = qf_cnt_r = qf_fired = 0; qf_target = '-'; qf_pos = 0;
+    r = injectbounce(ID0);
+    qf_kind = 0;
+    q_last_fired = qf_fired;
+    fprintf(h_out, " %d %d", r, vf_exists(fn_bounce)); rec_out();
+    hbuf_reset(&log1); hb_add(&log1, logb.p, logb.n);
+    setenv("C07_QQ", "0,0,-", 1);
+    rec_reset(); hbuf_reset(&logb);
+    r = injectbounce(ID0);
+    fprintf(h_out, " %d %d", r, vf_exists(fn_bounce)); rec_out();
+    fputc(' ', h_out);
+    if (routes.n) fwrite(routes.p, 1, routes.n, h_out); else fputc('-', h_out);
+    /* fault report: kind index fired target bytes-of-the-file-delivered-before */
+    if (fk) fprintf(h_out, " %c:%d:%d:%c:%lu", fk, fi, qf_fired, qf_target, (unsigned long)qf_pos); else fputs(" -", h_out);
+    hexf(log1.p, log1.n); hexf(logb.p, logb.n);
+    fputc('\n', h_out);
+  }
 }
 #else
 static void case_Q(const unsigned char *b, size_t n) { (void)b; (void)n; }
@@ -532,11 +562,18 @@ static void case_D(const unsigned char *b, size_t n) {
   concurrencyused[c] = 1; dline[c].len = 0; flagspawnalive[c] = 1;
   hbuf_reset(&raw); { unsigned char x = dn; hb_add(&raw, &x, 1); } hb_add(&raw, fld[2], fln[2]); hb_add(&raw, "", 1);
   spawn_p = raw.p; spawn_n = raw.n; spawn_pos = 0; readchunk = atoi(fstr[3]); if (readchunk <= 0) readchunk = 2048;
+  /* the channel file of the job, so that markdone() really writes its 'D' over the 'T' at mpos 0 */
+  static char fn_chan[64];
+  fnmake_chanaddr(ID0, c); strcpy(fn_chan, fn.s);
+  { hbuf t = {0}; hb_add(&t, "T", 1); hb_add(&t, fstr[1], strlen(fstr[1]) + 1); vf_put(fn_chan, t.p, t.n); free(t.p); }
+  ordn = 0; ord[0] = 0;
   while (spawn_pos < spawn_n) del_dochan(c);
   spawn_p = 0;
   fputs("D", h_out); hexf(b, n);
   f = vf_get(fn_bounce, 0);
   if (f && f->exists) hexf(f->d.p, f->d.n); else fputs(" 00", h_out);
+  /* order of the record / mark writes, and the first byte of the channel record afterwards */
+  { vfile *cf = vf_get(fn_chan, 0); fprintf(h_out, " %s %c", ordn ? ord : "-", (cf && cf->exists && cf->d.n) ? cf->d.p[0] : '?'); }
   fputc('\n', h_out);
   d[c][dn].used = 0;
 }
@@ -702,12 +739,34 @@ int main(int argc, char **argv) {
       if (!MINE) continue;
       case_Q(keep.p, keep.n);
     }
+    /* (Q faults) every call index of open_read() and of read() on a queue file during injectbounce(), in front of a queue program
+       that exits 0 (and one that exits 54, one killed): sweep k upwards until the fault no longer fires.  One group per shard. */
+    { static const char *qs[] = { "0,0", "0,0", "54,0", "0,9" };
+      for (unsigned g = 0; g < 16; g++) for (int fk = 0; fk < 2; fk++) {
+        static hbuf keep0; int sdx = (int[]){ 0, 1, 3, 9 }[g & 3];
+        gen_I_blob('-', sdx, (g & 4) ? 127 : 1);
+        hbuf_reset(&keep0); hb_add(&keep0, blob.p, blob.n);
+        if (!MINE) continue;
+        for (int kk = 0; kk < 64; kk++) {
+          static hbuf keep; unsigned k; size_t off = 0; int fno = 0; char sc[48];
+          snprintf(sc, sizeof sc, "%s,%c%d", qs[g >> 2], fk ? 'r' : 'o', kk);
+          hbuf_reset(&keep);
+          for (k = 0; k <= keep0.n; k++) if (k == keep0.n || keep0.p[k] == 0) {
+            if (fno) hb_add(&keep, "", 1);
+            if (fno == 8) hb_add(&keep, sc, strlen(sc)); else hb_add(&keep, keep0.p + off, k - off);
+            off = k + 1; fno++;
+          }
+          case_Q(keep.p, keep.n);
+          if (!q_last_fired) break;
+        }
+      } }
     for (int r = 0; r < nrandom / 40; r++) {
       static hbuf keep; unsigned k; size_t off = 0; int fno = 0; char sc[32];
       gen_I_blob('-', -1, h_below(128));
       if (h_below(3) == 0) snprintf(sc, sizeof sc, "0,%d", (int[]){ 9, 15, 11, 6, 2 }[h_below(5)]);
       else if (h_below(2)) snprintf(sc, sizeof sc, "0,0");
       else snprintf(sc, sizeof sc, "%d,0", (int)h_below(130));
+      if (h_below(3) == 0) { size_t l = strlen(sc); int isr = h_below(2); int kx = (int)h_below(isr ? 12 : 4); snprintf(sc + l, sizeof sc - l, ",%c%d", isr ? 'r' : 'o', kx); }
       hbuf_reset(&keep);
       for (k = 0; k <= blob.n; k++) if (k == blob.n || blob.p[k] == 0) {
         if (fno) hb_add(&keep, "", 1);
